@@ -670,6 +670,17 @@ func (ex *Exec) specialize(c *smt.Term, v Value) Value {
 }
 
 func (ex *Exec) store(st *State, p *Ptr, val Value) {
+	if p.Obj < 0 && !ex.inInit {
+		// a write to a package-level variable after initialisation: state
+		// shared between all jobs of the process
+		name := "?"
+		for g, i := range ex.globalIdx {
+			if -1000000-i == p.Obj {
+				name = g.Name()
+			}
+		}
+		st.SharedWrites = append(st.SharedWrites, name)
+	}
 	v, ok := st.Heap[p.Obj]
 	if !ok {
 		panic(fmt.Sprintf("store to unknown object %d", p.Obj))
